@@ -149,16 +149,28 @@ Inductive op :=
 | ECPrivKey (k : nat)
 | Address (k : nat).
 
-Section HD.
 (* dependencies, as functions on byte contents *)
-Variable hmac512 : list N -> list N -> list N.          (* key, data -> 64 bytes *)
-Variable scalar_ok : list N -> bool.                    (* 0 < parse256(b) < n *)
-Variable pub_of_priv : list N -> list N.                (* SerializeCompressed(ScalarBaseMult(k)) *)
-Variable priv_add : list N -> list N -> list N.         (* il, parent key -> (il + k) mod n, left-padded to 32 *)
-Variable pub_add : list N -> list N -> res (list N).    (* il, parent pubkey -> serP(point(il) + K); Err 3 invalid child, Err 4 parse *)
-Variable hash160 : list N -> list N.
-Variable parse_pub : list N -> res (list N).            (* bchec.ParsePubKey then SerializeCompressed *)
-Variable cks4 : list N -> list N.                       (* chainhash.DoubleHashB(b)[:4] *)
+Record deps := {
+  d_hmac512 : list N -> list N -> list N;          (* key, data -> 64 bytes *)
+  d_scalar_ok : list N -> bool;                    (* 0 < parse256(b) < n *)
+  d_pub_of_priv : list N -> list N;                (* SerializeCompressed(ScalarBaseMult(k)) *)
+  d_priv_add : list N -> list N -> list N;         (* il, parent key -> (il + k) mod n, left-padded to 32 *)
+  d_pub_add : list N -> list N -> res (list N);    (* il, parent pubkey -> serP(point(il) + K); Err 3 invalid child, Err 4 parse *)
+  d_hash160 : list N -> list N;
+  d_parse_pub : list N -> res (list N);            (* bchec.ParsePubKey then SerializeCompressed *)
+  d_cks4 : list N -> list N                        (* chainhash.DoubleHashB(b)[:4] *)
+}.
+
+Section HD.
+Variable D : deps.
+Local Notation hmac512 := (d_hmac512 D).
+Local Notation scalar_ok := (d_scalar_ok D).
+Local Notation pub_of_priv := (d_pub_of_priv D).
+Local Notation priv_add := (d_priv_add D).
+Local Notation pub_add := (d_pub_add D).
+Local Notation hash160 := (d_hash160 D).
+Local Notation parse_pub := (d_parse_pub D).
+Local Notation cks4 := (d_cks4 D).
 
 (* ---------- value-level computations shared by the heap machine and the pure reference ---------- *)
 Definition pub_val (priv : bool) (key : list N) : list N := if priv then pub_of_priv key else key.
